@@ -194,6 +194,9 @@ def _cases(tier):
     add("einsum(list-form)", "lambda anp, x, y: anp.einsum(x, [0, 1], y, [1, 2], [0, 2])", [(2, 3), (3, 2)])
     add("einsum(list-form,ellipsis-mid)", "lambda anp, x, y: anp.einsum(x, [0, Ellipsis, 1], y, [1, 2], [0, Ellipsis, 2])", [(2, 2, 3), (3, 2)])
     add("einsum(list-form,ellipsis-tail,bcast)", "lambda anp, x, y: anp.einsum(x, [0, Ellipsis], y, [0, Ellipsis], [0, Ellipsis])", [(3,), (3, 2)])
+    add("einsum(list-form,ellipsis-tail,bcast2)", "lambda anp, x, y: anp.einsum(x, [0, 1, Ellipsis], y, [1, 2, Ellipsis], [0, 2, Ellipsis])", [(2, 3), (3, 2, 2, 2)], second=False)
+    add("einsum(list-form,ellipsis-head,bcast2)", "lambda anp, x, y: anp.einsum(x, [Ellipsis, 0, 1], y, [Ellipsis, 1, 2], [Ellipsis, 0, 2])", [(2, 3), (2, 2, 3, 2)], second=False)
+    add("einsum('ij...,jk...->ik...' bcast2)", "lambda anp, x, y: anp.einsum('ij...,jk...->ik...', x, y)", [(2, 3), (3, 2, 2, 2)], second=False)
     add("einsum(list-form,ellipsis-mid,bcast)", "lambda anp, x, y: anp.einsum(x, [0, Ellipsis, 1], y, [0, Ellipsis, 1], [0, Ellipsis])", [(3, 2), (3, 2, 2)])
     for sa, sb in (((2, 2), (2, 2)), ((2,), (2, 2)), ((2, 2), (2,)), ((), (2, 2)), ((2,), (3,)), ((2, 1), (1, 3)), ((1, 2, 2), (2, 1, 2))):
         add("kron", "lambda anp, x, y: anp.kron(x, y)", [sa, sb], second=False)
